@@ -77,7 +77,7 @@ def rng_sample(rng, xs, k):
 def history(rng):
     g, b, w, o = set(), set(), set(), set()
     blocks = []
-    tau = 24 + rng.n(40)
+    tau = rng.pick([0, 2, 9, 12, 15, 20, 24 + rng.n(40), 24 + rng.n(40)])      # epochs 0 and 1 included (E = 12)
     for _ in range(rng.pick([2, 3, 4, 5, 6])):
         tau += 1 + rng.n(14)
         judged = g | b | w
@@ -123,7 +123,7 @@ def history(rng):
         culprits.sort(key=lambda c: c["k"])
         faults.sort(key=lambda f: f["k"])
         # one mutation now and then
-        m = rng.n(14)
+        m = rng.n(16)
         if m == 0 and culprits:
             culprits.pop(rng.n(len(culprits))); valid = False if nb else valid
         elif m == 1 and len(culprits) > 1:
@@ -142,6 +142,12 @@ def history(rng):
             faults[0]["v"] = not faults[0]["v"]; faults[0]["sig"] = "ok"; valid = False
         elif m == 8 and culprits:
             culprits[0]["k"] = 10; culprits.sort(key=lambda c: c["k"]); valid = False
+        elif m == 9 and verdicts:
+            # one validator judges twice: the judgement at position j+1 repeats the one at j (any position, incl. the last pair)
+            vv = rng.pick(verdicts)["votes"]
+            j = rng.n(len(vv) - 1)
+            vv[j + 1]["i"], vv[j + 1]["v"] = vv[j]["i"], vv[j]["v"]
+            valid = False
         pend = rng_sample(rng, list(range(1, 9)), 2)
         rho = [pend[0] if rng.n(4) else 0, pend[1] if rng.n(4) else 0]
         if targets and rng.n(2):
